@@ -170,7 +170,9 @@ def handle_task(task: dict, repo: str) -> dict:
         import hashlib as _h
 
         out["sched_digest"] = _h.sha256(json.dumps(sched, sort_keys=True).encode()).hexdigest()[:16]
-        if task.get("echo_sched"):
+        if task.get("echo_sched") or out.get("violations") or out.get("status") != "done":
+            # generators may consult the tree under test (e.g. its option list): the schedule that
+            # was run is the one to minimise and replay, never a regenerated one
             out["sched"] = sched
         if "transcript" in res:
             import hashlib
